@@ -262,7 +262,8 @@ pub fn run(tier: Tier) -> i32 {
         for realloc in [true, false] {
             let initials: Vec<usize> = if realloc { vec![16, t / 4 + t % 16, t] } else { vec![t] };
             for initial in initials {
-                for chunks in (1..=4usize).filter(|c| t < 1000 || tier == Tier::Thorough || *c == 1 || *c == 3) {
+                // 0 is clamped to 1 by the builder
+                for chunks in (0..=4usize).filter(|c| (*c > 0 || t == 64) && (t < 1000 || tier == Tier::Thorough || *c == 1 || *c == 3)) {
                     let mut c = SorterCfg::scaled(t, initial.max(16), realloc, chunks, false);
                     c.creator = 2;
                     cfgs.push(c);
